@@ -31,24 +31,24 @@ type SendRec struct {
 
 // MockCLA is a ConvergenceSender (only) whose outcomes are scripted.
 type MockCLA struct {
-	Name    string
-	Peer    bpv7.EndpointID
-	node    *Node
-	ch      chan cla.ConvergenceStatus
-	Fail    func(rec *SendRec) bool // nil = always succeed
-	Block   func(rec *SendRec)      // optional: called inside Send before returning (schedule control)
-	Starts  int
-	Closes  int
-	Perm    bool
+	Name   string
+	Peer   bpv7.EndpointID
+	node   *Node
+	ch     chan cla.ConvergenceStatus
+	Fail   func(rec *SendRec) bool // nil = always succeed
+	Block  func(rec *SendRec)      // optional: called inside Send before returning (schedule control)
+	Starts int
+	Closes int
+	Perm   bool
 }
 
-func (m *MockCLA) Start() (error, bool)                 { m.Starts++; return nil, false }
-func (m *MockCLA) Close() error                         { m.Closes++; return nil }
-func (m *MockCLA) Channel() chan cla.ConvergenceStatus  { return m.ch }
-func (m *MockCLA) Address() string                      { return "mock://" + m.Name }
-func (m *MockCLA) IsPermanent() bool                    { return m.Perm }
-func (m *MockCLA) GetPeerEndpointID() bpv7.EndpointID   { return m.Peer }
-func (m *MockCLA) String() string                       { return m.Address() }
+func (m *MockCLA) Start() (error, bool)                { m.Starts++; return nil, false }
+func (m *MockCLA) Close() error                        { m.Closes++; return nil }
+func (m *MockCLA) Channel() chan cla.ConvergenceStatus { return m.ch }
+func (m *MockCLA) Address() string                     { return "mock://" + m.Name }
+func (m *MockCLA) IsPermanent() bool                   { return m.Perm }
+func (m *MockCLA) GetPeerEndpointID() bpv7.EndpointID  { return m.Peer }
+func (m *MockCLA) String() string                      { return m.Address() }
 func (m *MockCLA) Send(b bpv7.Bundle) error {
 	var buf bytes.Buffer
 	err := b.WriteBundle(&buf)
@@ -106,7 +106,7 @@ func NewMockAgent(name string, eids ...bpv7.EndpointID) *MockAgent {
 	}()
 	return a
 }
-func (a *MockAgent) Endpoints() []bpv7.EndpointID     { return a.eids }
+func (a *MockAgent) Endpoints() []bpv7.EndpointID        { return a.eids }
 func (a *MockAgent) MessageReceiver() chan agent.Message { return a.recv }
 func (a *MockAgent) MessageSender() chan agent.Message   { return a.send }
 func (a *MockAgent) Received() []bpv7.Bundle {
@@ -125,17 +125,18 @@ func (a *MockAgent) Received() []bpv7.Bundle {
 
 // Node wraps one Core on a directory.
 type Node struct {
-	Core   *routing.Core
-	Dir    string
-	ID     bpv7.EndpointID
-	Conf   routing.RoutingConf
-	Peers  map[string]*MockCLA
-	Agents []*MockAgent
-	mu     sync.Mutex
-	Log    []SendRec
-	sendN  int
-	Event  int
-	ownDir bool
+	Core     *routing.Core
+	Dir      string
+	ID       bpv7.EndpointID
+	Conf     routing.RoutingConf
+	Peers    map[string]*MockCLA
+	Agents   []*MockAgent
+	mu       sync.Mutex
+	Log      []SendRec
+	sendN    int
+	Event    int
+	ownDir   bool
+	SignPriv []byte // ed25519 private key: administrative records get a signature block (nil = none)
 }
 
 func MustEID(s string) bpv7.EndpointID {
@@ -165,8 +166,19 @@ func NewNode(id string, conf routing.RoutingConf) *Node {
 	return n
 }
 
+// NewNodeSigned is NewNode with a signing key configured.
+func NewNodeSigned(id string, conf routing.RoutingConf, priv []byte) *Node {
+	n := &Node{Dir: workDir(), ID: MustEID(id), Conf: conf, Peers: map[string]*MockCLA{}, ownDir: true, SignPriv: priv}
+	n.open()
+	return n
+}
+
 func (n *Node) open() {
-	c, err := routing.NewCore(n.Dir, n.ID, false, n.Conf, nil)
+	if n.SignPriv != nil {
+		// NewCore registers the signature block type itself and refuses a second registration
+		bpv7.GetExtensionBlockManager().Unregister(&bpv7.SignatureBlock{})
+	}
+	c, err := routing.NewCore(n.Dir, n.ID, false, n.Conf, n.SignPriv)
 	if err != nil {
 		panic(err)
 	}
